@@ -166,8 +166,14 @@ class SymExec:
         return None
 
     # ---- statements ---------------------------------------------------------------------------------
+    ssa = False          # value-level engines set this: straight-line re-assignments / in-place updates of a local become versions
+
     def run(self, body=None):
-        self.block(self.fi.body if body is None else body)
+        stmts = self.fi.body if body is None else body
+        if self.ssa:
+            from ..normalise import ssa_straightline
+            stmts = ssa_straightline(stmts, params=tuple(self.fi.params))
+        self.block(stmts)
         return self
 
     def block(self, stmts):
@@ -216,6 +222,10 @@ class SymExec:
             if cur is None and isinstance(s.target, ast.Name):
                 self.env[key] = sym(key)
             self.env[key] = self.value(fake)
+            if isinstance(s.target, ast.Name):
+                # x op= e is, for the VALUE of x, the definition x = x op e (what else it does to storage is the alias analyses' business)
+                self.defs[key] = fake
+                self.def_history.setdefault(key, []).append(fake)
             return
         if isinstance(s, ast.If):
             t = self.flag_test(s.test)
